@@ -2,7 +2,7 @@
 # usage: tools/seedtest.sh <patch.diff> <tier> <prop> [<prop> ...]
 # Applies a seeded change to /repo, runs the named checks, and ALWAYS restores /repo afterwards.
 # Prints one line per check: <prop> exit=<code> <first VIOLATION signature>
-PATCH="$1"; TIER="$2"; shift 2
+PATCH="$(readlink -f "$1")"; TIER="$2"; shift 2
 cd /repo || exit 2
 if [ -n "$(git status --porcelain)" ]; then echo "/repo not clean"; exit 2; fi
 trap 'git -C /repo checkout -- . ; git -C /repo clean -fdq' EXIT
